@@ -138,4 +138,23 @@ CHECKS = {
         assumptions=COMMON_ASSUME + ["classifiers return one of success/ignore/dropped and a non-nil error with a non-OK code on refusal (as quantified)",
                                      "which of the two stream response classifiers serves which direction is left open: exactly one must be consulted"],
     ),
+    "C20": dict(
+        pkg="c20", race=False, shards=(8, 16), timeout_s=(600, 3000),
+        technique="recording MetricRegistry + lock-step model of emitted samples/gauges; backend-content and dogstatsd wire-capture monitors; poller life-cycle monitor (goroutine census + poll counters)",
+        level_text="With a recording registry every admission decision of Simple/Precise/Lookup/Predicate strategies must emit exactly the in-flight "
+                   "(bin) count at the decision, gauges must equal the enforced limit/shares after every step, every OnSample of every limit kind must "
+                   "emit rtt and in-flight once and the drop counter iff dropped under the prefixed names. The bundled registries are checked through the "
+                   "go-metrics registry contents and the captured dogstatsd wire lines (kind suffix, prefixed name, value). Life cycle: seeded "
+                   "Start/Stop/RegisterGauge sequences (sequential and concurrent) with a census of live poller goroutines (1 iff started, never 2, 0 "
+                   "after Stop returns), frozen supplier counts while stopped, and a watchdog that classifies a hang as the Stop-vs-tick wait-for cycle "
+                   "from the goroutine dump. Exploration.",
+        require=["strategy_decisions", "partition_decisions", "limit_samples", "limit_drop_samples", "gauge_reads", "forwarded_samples_checked",
+                 "lifecycle_states_checked", "frozen_poll_count_checks", "live_poll_observations", "lifecycle_cases/gometrics",
+                 "lifecycle_cases/datadog", "concurrent_lifecycle_cases"],
+        rule="case kinds: strategy op sequence (30-80 ops), partitioned strategy op sequence, limit sample sequence (30-90 samples, every limit kind incl. "
+             "windowed), queue gauge configuration, registry forwarding (6 metrics of random kind/prefix/id), life-cycle sequence (2-8 ops) and concurrent "
+             "life cycle (2-4 goroutines); all judged cases are non-trivial; distinct = distinct (kind, config, op sequence).",
+        assumptions=COMMON_ASSUME + ["life-cycle checks run in real time with 50-500us polling; only stable states are judged (poller count after bounded settling, "
+                                     "counter movement while stopped); a started poller that does not tick in 2000 periods is inconclusive"],
+    ),
 }
